@@ -20,13 +20,16 @@ Entry(e) ==
   /\ LET r == Proc(fs, dirs, e) IN
        /\ fs' = r.fs /\ dirs' = r.dirs /\ st' = r.st
        /\ hist' = Append(hist, e)
-       /\ (r.st # "run" /\ Emit) => PrintT("@@" \o ToJson(Case(hist', r.st, r.why, r.fs)))
+       \* one record per generated transition (before VIEW de-duplication): the archive that ends with
+       \* this entry.  If the entry is accepted the archive's outcome includes the deferred restore.
+       /\ Emit => IF r.st # "run" THEN PrintT("@@" \o ToJson(Case(hist', r.st, r.why, r.fs)))
+                  ELSE LET fin == RestoreDirs(r.fs, r.dirs) IN PrintT("@@" \o ToJson(Case(hist', fin.st, "end", fin.fs)))
 
 Finish ==
   /\ st = "run"
   /\ LET r == RestoreDirs(fs, dirs) IN
        /\ fs' = r.fs /\ st' = r.st /\ dirs' = <<>>
-       /\ Emit => PrintT("@@" \o ToJson(Case(hist, r.st, "end", r.fs)))
+       /\ (Emit /\ hist = <<>>) => PrintT("@@" \o ToJson(Case(hist, r.st, "end", r.fs)))     \* the empty archive
   /\ UNCHANGED hist
 
 Next == (\E e \in Alphabet : Entry(e)) \/ Finish
